@@ -120,7 +120,12 @@ def check_shape(shape, res, tier):
                                       'data': {'shape': shape, 'consts': {str(k): v for k, v in r[3].items()}, 'kind': r[1]}})
         elif r[0] == 'TIMEOUT':
             res['obligations'] += 1
-            key = 'nonterm:%s:w%d' % (rule_class(shape), n)
+            rc_ = rule_class(shape)
+            key = 'nonterm:%s:w%d' % (rc_, n)
+            if n == 64 and ('<<(K,K)' in rc_ or '>>(K,K)' in rc_ or '<<<(K,K)' in rc_):
+                # one root cause: constant folding of a 64-bit shift whose count is itself a huge constant (x << 2**63 never finishes);
+                # which shape the solver's model exposes it on varies with the run - one finding, not one per shape
+                key = 'nonterm:constant-shift-by-huge-count:w64'
             res['candidates'].append({'key': key, 'desc': 'no result within 10 s on %s with %s' % (name, r[1]),
                                       'soft': True,
                                       'data': {'shape': shape, 'consts': {str(k): v for k, v in r[1].items()}, 'kind': 'nonterm'}})
